@@ -4,6 +4,7 @@ import (
 	"fmt"
 	"path/filepath"
 	"sync"
+	"sync/atomic"
 	"time"
 
 	"github.com/glebziz/fs_db"
@@ -24,6 +25,7 @@ func init() {
 		Roles: map[string]Role{
 			"rounds": {N: func(t string) int { return tierN(t, 16, 1600) }, Case: c07Rounds},
 			"window": {N: func(t string) int { return tierN(t, 24, 2400) }, Case: c07Window},
+			"fresh":  {N: func(t string) int { return tierN(t, 16, 400) }, Case: c07Fresh},
 		},
 	})
 }
@@ -194,6 +196,20 @@ func c07Rounds(tier string, seed int64, idx int, scratch string) rt.CaseResult {
 			}
 			r.Txs = append(r.Txs, t)
 		}
+		// in some rounds an autocommit writer of the contended key runs concurrently with the whole
+		// round (started before the Begins, free to finish whenever it does)
+		var wwg sync.WaitGroup
+		if rng.Intn(3) == 0 {
+			w := &c07W{Key: keys[0], Val: string(seqrun.Content(pre+"cw", 16))}
+			r.Writer = w
+			w.Call = tr.Now()
+			wwg.Add(1)
+			go func() {
+				defer wwg.Done()
+				env.DB.Set(ctxBg, w.Key, []byte(w.Val))
+				w.Ret = tr.Now()
+			}()
+		}
 		// begin (concurrently half of the time) and write
 		var wg sync.WaitGroup
 		for _, t := range r.Txs {
@@ -219,7 +235,7 @@ func c07Rounds(tier string, seed int64, idx int, scratch string) rt.CaseResult {
 			}
 		}
 		wg.Wait()
-		if rng.Intn(3) == 0 {
+		if r.Writer == nil && rng.Intn(3) == 0 {
 			w := &c07W{Key: keys[0], Val: string(seqrun.Content(pre+"w", 16))}
 			w.Call = tr.Now()
 			env.DB.Set(ctxBg, w.Key, []byte(w.Val))
@@ -246,6 +262,7 @@ func c07Rounds(tier string, seed int64, idx int, scratch string) rt.CaseResult {
 		}
 		close(start)
 		wg.Wait()
+		wwg.Wait()
 		for _, k := range keys {
 			b, err := env.DB.Get(ctxBg, k)
 			if err != nil {
@@ -275,6 +292,9 @@ func c07Window(tier string, seed int64, idx int, scratch string) rt.CaseResult {
 	tr := conc.NewTracer(true)
 	tr.Install()
 	defer conc.Uninstall()
+	if idx%4 == 3 {
+		return c07WriterWindow(seed, idx, env, tr)
+	}
 	orders := []string{"A.checked<B.checked<A.published", "A.checked<B.published<A.published", "A.checked<A.published<B.checked"}
 	order := orders[idx%3]
 	pre := fmt.Sprintf("w%d-", idx)
@@ -339,5 +359,130 @@ func c07Window(tier string, seed int64, idx int, scratch string) rt.CaseResult {
 	if idx < 3 {
 		c.Sample = map[string]any{"window": order, "gate_outcome": out, "classes": []string{r.Txs[0].Class, r.Txs[1].Class}}
 	}
+	return c
+}
+
+// c07Fresh: the very first writes of a fresh database are conflicting commits released together.
+func c07Fresh(tier string, seed int64, idx int, scratch string) rt.CaseResult {
+	var c rt.CaseResult
+	rt.SetWatchdogLimit(25 * time.Second)
+	rng := seqrun.Rng(seed, "C07f", idx)
+	tr := conc.NewTracer(false)
+	tr.Install()
+	defer conc.Uninstall()
+	for rd := 0; rd < tierN(tier, 10, 12) && len(c.Violations) == 0; rd++ {
+		rt.Beat()
+		env, err := dbx.Open(dbx.Options{Mode: dbx.Inline, Dir: filepath.Join(scratch, fmt.Sprintf("db%d", rd))})
+		if err != nil {
+			c.Violate("open-failed", err.Error(), nil)
+			return c
+		}
+		pre := fmt.Sprintf("f%d-r%d-", idx, rd)
+		key := pre + "k"
+		r := &c07Round{Round: rd, Keys: []string{key}, Initial: "<never written>", Final: map[string]string{}}
+		n := 2 + rng.Intn(7)
+		for i := 0; i < n; i++ {
+			t := &c07Tx{ID: i, Level: 2 + rng.Intn(2), Keys: []string{key}, Val: string(seqrun.Content(fmt.Sprintf("%st%d", pre, i), 16))}
+			t.BeginCall = tr.Now()
+			t.tx, err = env.DB.Begin(ctxBg, verif.IsoLevel(t.Level))
+			t.BeginRet = tr.Now()
+			if err != nil {
+				c.Violate("begin-failed", err.Error(), nil)
+				env.Close()
+				return c
+			}
+			t.tx.Set(ctxBg, key, []byte(t.Val))
+			r.Txs = append(r.Txs, t)
+		}
+		var wg sync.WaitGroup
+		var ready atomic.Int32
+		for _, t := range r.Txs {
+			wg.Add(1)
+			go func(t *c07Tx) {
+				defer wg.Done()
+				ready.Add(1)
+				for int(ready.Load()) < n { // spinning barrier: release all commits at the same instant
+				}
+				t.CommitCall = tr.Now()
+				err := t.tx.Commit(ctxBg)
+				t.CommitRet = tr.Now()
+				t.Class = string(seqrun.Class(err))
+				if err != nil {
+					t.Err = err.Error()
+				}
+			}(t)
+		}
+		wg.Wait()
+		b, gerr := env.DB.Get(ctxBg, key)
+		if gerr != nil {
+			c.Violate("final-read-failed first-commits", gerr.Error(), map[string]any{"round": r})
+			env.Close()
+			return c
+		}
+		r.Final[key] = string(b)
+		judgeRound(&c, r, map[string]any{"seed": seed, "case": idx, "scenario": "first commits of a fresh database"})
+		c.Count("fresh_rounds", 1)
+		env.Close()
+	}
+	if idx == 0 {
+		c.Sample = map[string]any{"scenario": "fresh database, 2-8 snapshot transactions write one key, commits released together"}
+	}
+	return c
+}
+
+// c07WriterWindow: an autocommit writer of the contended key is parked right after drawing its
+// sequence until the first of two snapshot commits has been published; then the second commits.
+// With the sequence drawn inside the store's critical section the first commit cannot get there
+// (the gate times out: order not reachable) and both commits conflict with the writer.
+func c07WriterWindow(seed int64, idx int, env *dbx.Env, tr *conc.Tracer) rt.CaseResult {
+	var c rt.CaseResult
+	order := "W.seq-drawn<A.published<W.persisted<B.commit"
+	pre := fmt.Sprintf("ww%d-", idx)
+	key := pre + "k"
+	r := &c07Round{Round: idx, Keys: []string{key}, Initial: string(seqrun.Content(pre+"init", 16)), Final: map[string]string{}}
+	env.DB.Set(ctxBg, key, []byte(r.Initial))
+	w := &c07W{Key: key, Val: string(seqrun.Content(pre+"w", 16))}
+	r.Writer = w
+	var gate *conc.Gate
+	wdone := make(chan struct{})
+	armed := make(chan struct{})
+	go func() {
+		defer close(wdone)
+		gate = tr.AddGate(&conc.Gate{WaitPoint: "core.store.seq", WaitG: conc.Goid(), SigPoint: "core.updatetx.published", Timeout: 150 * time.Millisecond})
+		close(armed)
+		<-armed
+		w.Call = tr.Now()
+		env.DB.Set(ctxBg, key, []byte(w.Val))
+		w.Ret = tr.Now()
+	}()
+	<-armed
+	gate.WaitReached(2 * time.Second) // the writer has drawn its sequence and is parked
+	for i := 0; i < 2; i++ {
+		t := &c07Tx{ID: i, Level: 2 + (idx/4+i)%2, Keys: []string{key}, Val: string(seqrun.Content(fmt.Sprintf("%st%d", pre, i), 16))}
+		t.BeginCall = tr.Now()
+		t.tx, _ = env.DB.Begin(ctxBg, verif.IsoLevel(t.Level))
+		t.BeginRet = tr.Now()
+		t.tx.Set(ctxBg, key, []byte(t.Val))
+		r.Txs = append(r.Txs, t)
+	}
+	commit := func(t *c07Tx) {
+		t.CommitCall = tr.Now()
+		err := t.tx.Commit(ctxBg)
+		t.CommitRet = tr.Now()
+		t.Class = string(seqrun.Class(err))
+		if err != nil {
+			t.Err = err.Error()
+		}
+	}
+	commit(r.Txs[0])
+	<-wdone
+	commit(r.Txs[1])
+	b, _ := env.DB.Get(ctxBg, key)
+	r.Final[key] = string(b)
+	out := gate.Outcome()
+	c.AddDistinct("window:" + order + "/" + out)
+	c.Observe("window orders and gate outcomes", order+" -> "+out)
+	c.Count("window_attempts", 1)
+	judgeRound(&c, r, map[string]any{"seed": seed, "case": idx, "window": order, "gate": out})
 	return c
 }
